@@ -345,3 +345,18 @@ TEXTS.append(('mixed-indented', 'a\r\nb\n  c\r\n d\r e\r\n'))
 TEXTS.append(('lf-first-cr-last', '\nx\r'))
 TEXTS.append(('blank-lines-only', '\n  \n\n'))
 TEXT_BY_NAME.update(dict(TEXTS[-3:]))
+
+# key ORDER: keys whose order differs between code points, UTF-16 code
+# units, UTF-8 bytes, case-folded, numeric and length-first comparisons
+METAS.append(('key-order', {
+    '\uff21': 1, '\U0001f600': 2, '\ue000': 3, '\ufffd': 4, '\U00010000': 5,
+    '\ud7ff': 6, 'Z': 7, 'a': 8, 'A': 9, 'z': 10, '10': 11, '9': 12, '': 13,
+    'a!': 14, 'ab': 15, 'a b': 16, '\u00e9': 17, 'e\u0301': 18, '_': 19,
+    '-': 20, 'nested': {'\U0001f600': 1, '\uff21': 2, 'b': 3, 'B': 4}}))
+# counts that do not add up (a producer counting a replaced line once):
+# metadata is data, nobody recomputes it on the way through
+METAS.append(('inconsistent-stats', {
+    'stats': {'insertions': 2, 'deletions': 3, 'lines changed': 3,
+              'files': 7, 'changes': 0, 'total': -1},
+    'path': 'f'}))
+META_BY_NAME.update(dict(METAS[-2:]))
